@@ -38,7 +38,9 @@
 (*        node answers to countNth / at:  "ok" | "revert" (n out of range) *)
 (*        | "empty" (undecodable answer) | "huge" (countNth = 2^40)]       *)
 (*   c    log data: "ok" | "long" (trailing bytes: decodes) | "short"      *)
-(*        (truncated) | "wide" (a uint64 word >= 2^64): UnpackLog fails    *)
+(*        (truncated) | "wide" (a uint64 word >= 2^64): UnpackLog fails |  *)
+(*        "nodata" (no data at all): bind.UnpackLog skips the decoding of  *)
+(*        empty data, every field of the event is 0                        *)
 (*   pos  log index in the block                                           *)
 (*                                                                         *)
 (* Database of one observer: db = [nb, li, ks, co]: event_sync_progress    *)
@@ -150,6 +152,8 @@ GetAddrs(s) ==
            [] OTHER                -> [r |-> "fail", mem |-> <<>>]
 
 BadData == {"short", "wide"}
+(* what Next hands to the handler *)
+Decode(e) == IF e.c = "nodata" THEN [e EXCEPT !.idx = 0, !.act = 0, !.set = 1, !.thr = 0] ELSE e
 
 (* faults: f = [k, at, w]
      k   "none"
@@ -167,8 +171,9 @@ SqlHit(f, w) == f.k \in {"err", "drop"} /\ f.w = w
 
 (* PutDB of both handlers up to (and including) the INSERT, without SQL faults:
    res "ok" | "err" | "hang";  cls what happened;  ins: the INSERT statement is reached *)
-Handler(db, e, f) ==
-    LET ga == IF f.k = "rpcM" THEN [r |-> "fail", mem |-> <<>>] ELSE GetAddrs(e.set) IN
+Handler(db, e0, f) ==
+    LET e == Decode(e0)
+        ga == IF f.k = "rpcM" THEN [r |-> "fail", mem |-> <<>>] ELSE GetAddrs(e.set) IN
     IF ga.r = "hang" THEN [res |-> "hang", db |-> db, cls |-> "hang", ins |-> FALSE]
     ELSE IF ga.r = "fail" THEN [res |-> "err", db |-> db, cls |-> "mem", ins |-> FALSE]
     ELSE IF e.act \in {P63, U64} THEN [res |-> "err", db |-> db, cls |-> "act", ins |-> FALSE]
@@ -190,7 +195,7 @@ Reaches(db, x, w) ==
       [] w = "ins"    -> h.ins
       [] w = "upd"    -> h.res = "ok"
       [] w = "commit" -> h.res = "ok"
-      [] w = "mem"    -> GetAddrs(x.e.set).r = "ok"
+      [] w = "mem"    -> GetAddrs(Decode(x.e).set).r = "ok"
       [] OTHER        -> FALSE
 
 (* handleEventSyncUpdate for an event item: [db, com (committed), err "none" | "refused" | "fail", cls] *)
